@@ -70,9 +70,9 @@ func BuildErrorLines(node models2.JFullIdentifier) []int {
 		ss := strings.Split(imp.Name, ".")
 		lastField := ss[len(ss)-1]
 
-		var isOk = false
+		var isOk = lastField == "*"
 		for _, field := range fields {
-			if field.Name == lastField || lastField == "*" {
+			if field.Name == lastField {
 				isOk = true
 			}
 		}
